@@ -145,12 +145,12 @@ pub(crate) mod verif_k3 {
                 assert!(n.is_used(), "audit: level view refers to a freed node");
                 assert!(n.level() == l, "audit: node level differs from the level of its view");
                 let key = n.key();
-                assert!(tab.key(i) == key, "audit: node is entered under stale children");
+                assert!(keq(tab.key(i), key), "audit: node is entered under stale children");
                 // uniqueness
                 let mut j = 0;
                 while j < i {
                     assert!(
-                        m.nodes[tab.edge(j).slot()].key() != key,
+                        !keq(m.nodes[tab.edge(j).slot()].key(), key),
                         "audit: two nodes with identical children on one level"
                     );
                     j += 1;
